@@ -280,6 +280,9 @@ type vrfCountingMonitor struct{ ids []string }
 
 func (l *vrfCountingMonitor) Receive(m event.MessageMetadata) error {
 	l.ids = append(l.ids, m.ID)
+	// the dispatcher may get ahead of the hub here (refilling the hub's operation queue) before the
+	// hub goes on to the next monitor
+	vrf.PreemptPoint()
 	return nil
 }
 func (l *vrfCountingMonitor) Delete(mailbox string, id string) error { return nil }
@@ -296,10 +299,11 @@ func VerifC15Slow(n int) {
 	hub := msghub.New(2, extension.NewHost())
 	ctx := &vrfNeverCtx{done: make(chan struct{})}
 	go hub.Start(ctx)
-	slow := newMsgListenerV2(hub, "") // nobody reads slow.c
 	fast := &vrfCountingMonitor{}
 	hub.AddListener(fast)
+	slow := newMsgListenerV2(hub, "") // nobody reads slow.c
 	hub.Sync()
+	vrf.Preemptions(1)
 	done := make(chan bool, 1)
 	go func() {
 		for i := 1; i <= n; i++ {
@@ -328,4 +332,42 @@ func VerifC15Slow(n int) {
 	vrf.Assert("slow-monitor-queue-bounded", len(slow.c) <= 100)
 	close(ctx.done)
 	vrf.Cover("slow-monitor-done")
+}
+
+// VerifC15ViaHost: the hub as it is wired in the server - fed by the extension host's stored and
+// deleted events. A message is stored and deleted right away; once everything has settled, a
+// monitor that joins must not be replayed the deleted message, and a monitor that was attached
+// all along must have seen "stored" before "deleted". Explored under run-to-block scheduling plus
+// `pre` pre-emptions (the event dispatch goroutines take a mutex); natively the race is repeated.
+func VerifC15ViaHost(pre int) {
+	iters := 1
+	if !vrf.Symbolic() {
+		iters = 300
+	}
+	for it := 0; it < iters; it++ {
+		host := extension.NewHost()
+		hub := msghub.New(3, host)
+		ctx := &vrfNeverCtx{done: make(chan struct{})}
+		go hub.Start(ctx)
+		early := newMsgListenerV2(hub, "")
+		hub.Sync()
+		vrf.Preemptions(pre)
+		m := event.MessageMetadata{Mailbox: "a", ID: "1"}
+		host.Events.AfterMessageStored.Emit(&m)
+		host.Events.AfterMessageDeleted.Emit(&m)
+		vrf.Quiesce()
+		vrf.Quiesce()
+		hub.Sync()
+		vrf.Assert("early-monitor-got-both-events", len(early.c) == 2)
+		if len(early.c) == 2 {
+			e1 := <-early.c
+			e2 := <-early.c
+			vrf.Assert("stored-before-deleted-into-the-hub", e1.Variant == "message-stored" && e2.Variant == "message-deleted")
+		}
+		late := newMsgListenerV2(hub, "")
+		hub.Sync()
+		vrf.Assert("deleted-message-not-in-replayed-history", len(late.c) == 0)
+		close(ctx.done)
+	}
+	vrf.Cover("via-host-done")
 }
